@@ -170,14 +170,17 @@ case!(Floats, "Floats", top, |g| Floats { a: F32b::gen(g), b: F64b::gen(g), v: v
 /// Variants are tried in declaration order; the generator only produces values that the earlier variants refuse
 /// (serde's own `String` visitor accepts UTF-8 byte strings, hence the byte buffer comes before the text).
 #[derive(Debug, Clone, PartialEq, Serialize, Deserialize)] #[serde(untagged)]
-pub enum UntaggedWide { B(bool), I(i64), U(u64), F(f64), Y(Buf), T(String), O(Option<u8>), L(Vec<i8>), M(BTreeMap<String, i16>), P(i8, String) }
+pub enum UntaggedWide { B(bool), I(i64), U(u64), F(F64b), Y(Buf), T(String), O(Option<u8>), L(Vec<i8>), M(BTreeMap<String, i16>), P(i8, String) }
 case!(UntaggedWide, "UntaggedWide", |g| match g.below(10) {
-    0 => UntaggedWide::B(g.bool()), 1 => UntaggedWide::I(g.i64()), 2 => UntaggedWide::U(g.u64() | (1 << 63)), 3 => UntaggedWide::F(f64n(g)),
+    0 => UntaggedWide::B(g.bool()), 1 => UntaggedWide::I(g.i64()), 2 => UntaggedWide::U(g.u64() | (1 << 63)), 3 => UntaggedWide::F(F64b(f64::from_bits(g.f64_bits()))),
     4 => UntaggedWide::T(s(g)), 5 => UntaggedWide::Y(Buf(g.bytes(20))), 6 => UntaggedWide::O(None),
     7 => UntaggedWide::L(vecof(g, |g| g.i8())), 8 => UntaggedWide::M({ let n = g.below(4); (0 .. n).map(|_| (s(g), g.i16())).collect() }),
     _ => UntaggedWide::L(vec![g.i8()]) });
-#[derive(Debug, Clone, PartialEq, Serialize, Deserialize)] pub struct InnerWide { pub i: i64, pub u: u64, pub f: f64, pub g: f32, pub b: bool, pub o: Option<u8>, pub t: String, pub v: Vec<i16>, pub m: BTreeMap<String, u8>, pub n: i8, pub y: Buf, pub p: (u8, bool), pub w: NewT }
-impl InnerWide { fn gen(g: &mut Gen) -> Self { InnerWide { i: g.i64(), u: g.u64(), f: f64n(g), g: f32n(g), b: g.bool(), o: opt(g, |g| g.u8()), t: s(g), v: vecof(g, |g| g.i16()), m: { let n = g.below(4); (0 .. n).map(|_| (s(g), g.u8())).collect() }, n: g.i8(), y: Buf(g.bytes(12)), p: (g.u8(), g.bool()), w: NewT(g.u32()) } } }
+/// Single precision on the wire in an untagged context (kept apart from the f64 variant: serde's float visitors accept each other's width).
+#[derive(Debug, Clone, PartialEq, Serialize, Deserialize)] #[serde(untagged)] pub enum UntaggedF32 { I(i64), G(F32b), T(String) }
+case!(UntaggedF32, "UntaggedF32", |g| match g.below(4) { 0 => UntaggedF32::I(g.i64()), 1 => UntaggedF32::T(s(g)), _ => UntaggedF32::G(F32b(f32::from_bits(g.f32_bits()))) });
+#[derive(Debug, Clone, PartialEq, Serialize, Deserialize)] pub struct InnerWide { pub i: i64, pub u: u64, pub f: F64b, pub g: F32b, pub b: bool, pub o: Option<u8>, pub t: String, pub v: Vec<i16>, pub m: BTreeMap<String, u8>, pub n: i8, pub y: Buf, pub p: (u8, bool), pub w: NewT }
+impl InnerWide { fn gen(g: &mut Gen) -> Self { InnerWide { i: g.i64(), u: g.u64(), f: F64b(f64::from_bits(g.f64_bits())), g: F32b(f32::from_bits(g.f32_bits())), b: g.bool(), o: opt(g, |g| g.u8()), t: s(g), v: vecof(g, |g| g.i16()), m: { let n = g.below(4); (0 .. n).map(|_| (s(g), g.u8())).collect() }, n: g.i8(), y: Buf(g.bytes(12)), p: (g.u8(), g.bool()), w: NewT(g.u32()) } } }
 #[derive(Debug, Clone, PartialEq, Serialize, Deserialize)] pub struct FlatWide { pub id: u32, #[serde(flatten)] pub inner: InnerWide, pub tail: Option<bool> }
 case!(FlatWide, "FlatWide (flatten, every leaf kind)", |g| FlatWide { id: g.u32(), inner: InnerWide::gen(g), tail: opt(g, |g| g.bool()) });
 #[derive(Debug, Clone, PartialEq, Serialize, Deserialize)] #[serde(tag = "kind")] pub enum InternalWide { A(InnerWide), B { x: i64, y: Option<String>, z: Vec<bool> }, C }
@@ -191,6 +194,24 @@ impl<'de> Deserialize<'de> for LazyExts { fn deserialize<D: serde::Deserializer<
 case!(LazyExts, "LazyExts (enums in an unknown-length seq)", |g| LazyExts(vecof(g, Ext::gen)));
 #[derive(Debug, Clone, PartialEq, Serialize, Deserialize)] pub struct FlatThenEnum { #[serde(flatten)] pub inner: Inner, pub id: u8, pub last: Ext }
 case!(FlatThenEnum, "FlatThenEnum (enum last in a flattened struct)", |g| FlatThenEnum { inner: Inner { p: g.u16(), q: s(g) }, id: g.u8(), last: Ext::gen(g) });
+
+// ---- long and deep documents (cumulative effects: counters, budgets, buffers that only show after many elements) ----
+fn big(g: &mut Gen) -> usize { *g.pick(&[130usize, 300, 1000, 2500]) + g.below(7) }
+#[derive(Debug, Clone, PartialEq, Serialize, Deserialize)] pub struct LongDoc { pub opts: Vec<Option<u16>>, pub units: Vec<()>, pub map: BTreeMap<u32, Option<String>>, pub nested: Vec<Vec<Option<bool>>>, pub exts: Vec<Ext>, pub tail: u8 }
+case!(LongDoc, "LongDoc (hundreds to thousands of elements)", top, |g| {
+    let which = g.below(5);
+    let n = big(g);
+    LongDoc {
+        opts: if which == 0 { (0 .. n).map(|i| if g.chance(200) || i % 97 == 0 { None } else { Some(g.u16()) }).collect() } else { vec![None, Some(1)] },
+        units: if which == 1 { vec![(); n] } else { vec![] },
+        map: if which == 2 { (0 .. n as u32).map(|i| (i * 3, if g.chance(180) { None } else { Some(s(g)) })).collect() } else { BTreeMap::new() },
+        nested: if which == 3 { (0 .. n / 8).map(|_| (0 .. 8).map(|_| opt(g, |g| g.bool())).collect()).collect() } else { vec![] },
+        exts: if which == 4 { (0 .. n / 2).map(|_| Ext::gen(g)).collect() } else { vec![] },
+        tail: g.u8()
+    }
+});
+#[derive(Debug, Clone, PartialEq, Serialize, Deserialize)] pub struct Deep { pub next: Option<Box<Deep>>, pub v: u8 }
+case!(Deep, "Deep (nesting up to 100 levels)", |g| { let depth = *g.pick(&[1usize, 5, 30, 64, 100]); let mut d = Deep { next: None, v: g.u8() }; for _ in 0 .. depth { d = Deep { next: Some(Box::new(d)), v: g.u8() } } d });
 
 // ---- std types with serde impls of their own ----------------------------------------------------------
 case!(std::time::Duration, "Duration", |g| std::time::Duration::new(g.u64(), g.u32() % 1_000_000_000));
@@ -222,7 +243,7 @@ macro_rules! for_each_case {
             $mac!(Ext), $mac!(HoldsExt), $mac!(Internal), $mac!(Adjacent), $mac!(Untagged), $mac!(Flat), $mac!(FlatMap), $mac!(SkipIf), $mac!(Renamed), $mac!(Lazy), $mac!(Generic<i8>), $mac!(Big),
             $mac!(u64), $mac!(i64), $mac!(i8), $mac!(bool), $mac!(char), $mac!(String), $mac!(()), $mac!(f32), $mac!(f64), $mac!(Option<u32>), $mac!(Vec<u8>), $mac!(Vec<Option<String>>),
             $mac!((u8, (bool, String), [i16; 2])), $mac!(std::collections::BTreeMap<i32, Vec<String>>), $mac!(Buf), $mac!(LazySeq), $mac!(Box<Ext>),
-            $mac!(F32b), $mac!(F64b), $mac!(Floats), $mac!(UntaggedWide), $mac!(FlatWide), $mac!(InternalWide), $mac!(AdjacentWide), $mac!(LazyExts), $mac!(FlatThenEnum),
+            $mac!(F32b), $mac!(F64b), $mac!(Floats), $mac!(UntaggedWide), $mac!(UntaggedF32), $mac!(FlatWide), $mac!(InternalWide), $mac!(AdjacentWide), $mac!(LazyExts), $mac!(FlatThenEnum), $mac!(LongDoc), $mac!(Deep),
             $mac!(std::time::Duration), $mac!(std::net::IpAddr), $mac!(std::net::SocketAddr), $mac!(std::ops::Range<u8>), $mac!(std::ops::Bound<i16>), $mac!(Result<u8, String>),
             $mac!(std::num::NonZeroU16), $mac!(std::num::Wrapping<i8>), $mac!(std::cmp::Reverse<u8>), $mac!(std::marker::PhantomData<u8>), $mac!(std::ffi::CString), $mac!(std::path::PathBuf),
             $mac!(std::collections::BTreeSet<u8>), $mac!(std::collections::VecDeque<i16>), $mac!(std::borrow::Cow<'static, str>), $mac!(Box<str>), $mac!([u8; 32]),
